@@ -7,7 +7,7 @@ followed by the beam-sync retry loop: supply only the reported node and retry.
 """
 from trie.exceptions import MissingTraversalNode, MissingTrieNode, TraversedPartialPath
 
-from ..core import HarnessError, Stats, Violation, hx, unhx
+from ..core import HarnessError, Stats, Violation, deep, hx, unhx
 from ..hgen import HistoryGen, make_pool, make_values, probe_keys
 from ..hworld import HWorld
 from ..models.mpt import RefMPT, nibbles_of
@@ -334,7 +334,7 @@ def generate(rng):
     prune = rng.random() < 0.5
     cache = rng.choice([0, 1, 2, 8, 4096])
     g = HistoryGen(rng, pool, values, probes, batches=True, aborts=True, reopen=True, lookups=(0, 0))
-    prefix = g.history(rng.choice([3, 5, 8, 12, 20, 30]))
+    prefix = g.history(rng.choice(deep([3, 5, 8, 12, 20, 30], [5, 10, 20, 40, 60])))
     on = "live"
     present = g.present
     if rng.random() < 0.3:
